@@ -19,6 +19,7 @@
 
 #include <cstdint>
 #include <istream>
+#include <limits>
 
 #include <nop/status.h>
 
@@ -59,8 +60,21 @@ class StreamReader {
   }
 
   Status<void> Skip(std::size_t padding_bytes) {
-    stream_.seekg(padding_bytes, std::ios_base::cur);
-    return ReturnStatus();
+    // Consume the bytes instead of seeking: seeking past the end either fails
+    // without setting eofbit (string streams) or succeeds (files), and both
+    // would report a truncated stream as successfully skipped.
+    const std::size_t max_chunk = static_cast<std::size_t>(
+        std::numeric_limits<std::streamsize>::max());
+    while (padding_bytes > 0) {
+      const std::size_t chunk =
+          padding_bytes < max_chunk ? padding_bytes : max_chunk;
+      stream_.ignore(static_cast<std::streamsize>(chunk));
+      auto status = ReturnStatus();
+      if (!status)
+        return status;
+      padding_bytes -= chunk;
+    }
+    return {};
   }
 
   const IStream& stream() const { return stream_; }
